@@ -41,12 +41,18 @@ RULE = ('case = one template description (gen/templates.py) with a `where` '
         'every `grid_stride`-th one, rotated by the seed). DNAs: all members of spaces with <= '
         '`dnas` members, else `dnas` reference-sampled members. Every DNA: '
         'decode twice, compare with the reference decoder, field rules, '
-        'mutate one result, encode, materialize; every template: pg.iter, '
+        'identity (no mutable object of a result is part of another result or '
+        'of the template), the client edits one result in place (alternately '
+        'the one handed out first / second; random append / setitem / new key / '
+        'pop / rebind in every container) and decodes again, encode, '
+        'materialize; every template: pg.iter, '
         'random sampling, dynamic evaluation, non-member DNAs, and a HISTORY of '
-        'decode / random_dna(previous_dna) / next_dna / encode / re-decode over '
+        'decode / client edit of a handed-out value / random_dna(previous_dna) / '
+        'next_dna / encode / re-decode over '
         'the members and the proposed children in which every value handed out '
         'earlier is re-read after every call and the DNA involved is decoded '
-        'again; the template is snapshotted (JSON, format, own canonical form) around every call. '
+        'again, and finally compared with the decode of a fresh equal template; '
+        'the template is snapshotted (JSON, format, own canonical form) around every call. '
         'Non-trivial = at least 2 members and (a conditional candidate, a '
         'multi-choice, a filter or a typed field); distinct by template text.')
 LEVEL = 'exploration'
@@ -60,7 +66,9 @@ REQUIRED_COUNTERS = ['spec_checks', 'decode_checks', 'reference_compared',
                      'bound_spec_checks', 'binding_refusal_checks',
                      'bound_spec_templates', 'evolve_step_templates',
                      'history_ops', 'history_held_checks',
-                     'history_redecode_checks', 'history_children']
+                     'history_redecode_checks', 'history_children',
+                     'identity_checks', 'history_edits',
+                     'history_fresh_template_checks']
 ASSUMPTIONS = [
     'a DNA is valid for a template iff its decisions are a member of the space derived from the description (genoref); DNAs are built in the documented nested form, some bound to the template\'s own spec',
     'the reference decoder consumes decisions in placeholder order of the value (dict insertion order, list order, schema order of object fields; pick, its candidate, next pick); a placeholder rejected by `where` stays and its candidates are still searched',
@@ -221,6 +229,14 @@ class Case:
         return 'root-choice' if path == () and P['t'] == 'choice' else 'nested-placeholder'
     return 'constant-part'
 
+  def path_region(self, path):
+    """root-choice | nested-placeholder | constant-part for a path (tokens) of
+    a decoded value."""
+    for top, P in self.tops:
+      if tuple(path[:len(top)]) == tuple(top):
+        return 'root-choice' if top == () and P['t'] == 'choice' else 'nested-placeholder'
+    return 'constant-part'
+
   def dna(self, m, bound=False):
     form = G.nested(G.tree(self.space, m))
     if bound:
@@ -340,9 +356,34 @@ def variant(x):
   return []
 
 
-def mutate_all(v, counters):
-  """Changes every container of `v` in place where its spec allows a change."""
-  for node in containers(v):
+def mutables(v, path=(), out=None):
+  """[(path tokens, object)]: every mutable object reachable from `v` through
+  public API (symbolic containers / objects, placeholders left in a value,
+  built-in dicts and lists); path tokens as in gen/templates."""
+  out = [] if out is None else out
+  if isinstance(v, pg.Symbolic):
+    out.append((path, v))
+    for k, x in v.sym_items():
+      mutables(x, path + ((('i', k) if isinstance(k, int) else ('k', k)),), out)
+  elif isinstance(v, dict):
+    out.append((path, v))
+    for k, x in v.items():
+      mutables(x, path + (('k', k),), out)
+  elif isinstance(v, list):
+    out.append((path, v))
+    for k, x in enumerate(v):
+      mutables(x, path + (('i', k),), out)
+  return out
+
+
+def mutate_all(v, counters, rng=None, some=False):
+  """Changes containers of `v` in place where their spec allows a change:
+  every container, or (some=True) a random non-empty subset; with `rng` the
+  kind of edit (append / setitem / new key / pop / rebind) is random."""
+  nodes_ = containers(v)
+  if some and rng is not None and len(nodes_) > 1:
+    nodes_ = rng.sample(nodes_, rng.randint(1, len(nodes_)))
+  for node in nodes_:
     attempts = []
     if isinstance(node, pg.Object):
       for k, x in list(node.sym_items()):
@@ -359,6 +400,8 @@ def mutate_all(v, counters):
         attempts.append(lambda node=node, y=y: node.__setitem__(0, y))
       attempts.append(lambda node=node: node.append(0))
       attempts.append(lambda node=node: node.pop())
+    if rng is not None:
+      rng.shuffle(attempts)
     done = False
     for a in attempts[:12]:
       try:
@@ -386,6 +429,42 @@ def decode(ctx, cs, dna, m, op='decode'):
                   f'decode of the valid DNA {dna!r} (decisions {list(m)!r}) raised:\n{tb(e)}',
                   cs.record)
     return False, None
+
+
+def check_identity(ctx, cs, values, detail):
+  """No mutable object reachable from one decode result is reachable from
+  another decode result or from the template (an edit by the client of one
+  result would change the other / the template). True when one is shared."""
+  ctx.counters['identity_checks'] += 1
+  roots = [cs.v]
+  try:
+    if cs.t.value is not cs.v:
+      roots.append(cs.t.value)
+  except Exception:  # pylint: disable=broad-except
+    pass
+  tids = set()
+  for r in roots:
+    tids.update(id(x) for _, x in mutables(r))
+  seen = {}
+  for n, v in enumerate(values):
+    if v is None:
+      continue
+    for path, x in mutables(v):
+      at = '/'.join(str(t[1]) for t in path)
+      if id(x) in tids:
+        ctx.violation('decode-aliases-template', cs.path_region(path),
+                      f'identity: the object at {at!r} of one of the '
+                      f'{detail} is an object of the template itself: '
+                      f'{pg.format(x, compact=True)[:300]}', cs.record)
+        return True
+      if seen.get(id(x), n) != n:
+        ctx.violation('decode-aliases-decode', cs.path_region(path),
+                      f'identity: the object at {at!r} of one of the '
+                      f'{detail} is also part of another one: '
+                      f'{pg.format(x, compact=True)[:300]}', cs.record)
+        return True
+      seen[id(x)] = n
+  return False
 
 
 def check_dna(ctx, cs, m, j):
@@ -448,30 +527,46 @@ def check_dna(ctx, cs, m, j):
       ctx.violation('decode-twice-differs', 'decode',
                     f'two decodes of {dna!r}: {pg.format(d1, compact=True)[:500]} vs '
                     f'{pg.format(d2, compact=True)[:500]} (pg.eq={eq})', cs.record)
+    # -- no mutable object of one result is part of the other or of the template
+    shared = check_identity(ctx, cs, [d1, d2], f'decodes of {dna!r}')
+    # -- the client edits one of the results in place (the one handed out first
+    #    or the later one), then decodes the same DNA again
     c['independence_checks'] += 1
-    mutate_all(d2, c)
+    if j % 2 == 0:
+      edited, kept, ck, which = d1, d2, c2, 'first'
+    else:
+      edited, kept, ck, which = d2, d1, c1, 'second'
+    c['edited_result:' + which] += 1
+    mutate_all(edited, c, rng)
     now = snap(cs.v)
-    c1_after = TT.canon_value(d1)
+    kept_after = TT.canon_value(kept)
     ok3, d3 = decode(ctx, cs, dna, m)
     c3 = TT.canon_value(d3) if ok3 else None
-    if now != cs.before:
+    if ok3 and not shared:
+      shared = check_identity(ctx, cs, [d3, edited, kept],
+                              f'decodes of {dna!r} (one edited in between)')
+    if shared:
+      pass                                        # reported by check_identity
+    elif now != cs.before:
       ctx.violation('decode-aliases-template', cs.alias_region(cs.before[2], now[2]),
-                    f'mutating the value decoded from {dna!r} changed the template:\n'
+                    f'mutating the value decoded {which} from {dna!r} changed the template:\n'
                     f'before: {cs.before[1][:500]}\nafter:  {now[1][:500]}', cs.record)
     elif c3 != c1:
       ctx.violation('decode-aliases-template', cs.alias_region(c1, c3) if ok3 else 'decode-raised',
-                    f'after mutating one value decoded from {dna!r}, decoding it again '
+                    f'after mutating the value decoded {which} from {dna!r}, decoding it again '
                     f'gives another value (the value of the template looks unchanged): '
                     f'{pg.format(d3, compact=True)[:600] if ok3 else "raised"}', cs.record)
-    elif c1_after != c1:
-      ctx.violation('decode-aliases-decode', cs.alias_region(c1, c1_after),
-                    f'mutating one value decoded from {dna!r} changed the other: '
-                    f'{pg.format(d1, compact=True)[:600]}', cs.record)
-    if now != cs.before or c3 != c1 or c1_after != c1:
+    elif kept_after != ck:
+      ctx.violation('decode-aliases-decode', cs.alias_region(ck, kept_after),
+                    f'mutating the value decoded {which} from {dna!r} changed the other: '
+                    f'{pg.format(kept, compact=True)[:600]}', cs.record)
+    if shared or now != cs.before or c3 != c1 or kept_after != ck:
       cs.make()                        # heal
       ok, d1 = decode(ctx, cs, dna, m)
       if not ok:
         return False
+    else:
+      d1 = d3                          # an unedited result for the checks below
   # -- encode is the inverse of decode
   for variant_name in ('value', 'clone'):
     if not same:
@@ -841,6 +936,7 @@ def check_history(ctx, cs, members, steps):
   for m in members[:3]:
     known[m] = Entry(m, cs.dna(m))
   last = None
+  edited = []                  # [(entry, value the client edited)]
   judge_encode = cs.dist and cs.feature() not in ('where-in-candidate',)
 
   def redecode(entry, op):
@@ -898,14 +994,42 @@ def check_history(ctx, cs, members, steps):
     r = rng.random()
     if last is None or r < 0.3:
       op = 'decode'
-    elif r < 0.72:
+    elif r < 0.5:
+      op = 'edit'
+    elif r < 0.78:
       op = 'random_dna'
-    elif r < 0.84:
+    elif r < 0.87:
       op = 'next_dna'
     else:
       op = 'encode'
     c['history_ops'] += 1
     c['history:' + op] += 1
+    if op == 'edit':
+      # The client edits, in place, a value that decode handed out earlier
+      # (mostly the latest one); its DNA is then decoded again by audit().
+      pool = [e for e in known.values() if e.held]
+      if not pool:
+        c['history_edit_nothing_held'] += 1
+        continue
+      if last.held and rng.random() < 0.7:
+        entry, idx = last, len(last.held) - 1
+      else:
+        entry = rng.choice(pool)
+        idx = rng.randrange(len(entry.held))
+      v, _ = entry.held.pop(idx)
+      n0 = c['mutations_applied']
+      mutate_all(v, c, rng, some=rng.random() < 0.5)
+      c['history_edits' if c['mutations_applied'] > n0
+        else 'history_edit_nothing_mutable'] += 1
+      edited.append((entry, v))
+      if not audit('edit', entry):
+        return False
+      if check_identity(
+          ctx, cs, [x for e in known.values() for x, _ in e.held] + [
+              x for _, x in edited[-2:]], 'values handed out in a history'):
+        cs.make()
+        return False
+      continue
     if op == 'decode':
       fresh = [e for e in known.values() if e.first is None]
       entry = rng.choice(fresh) if fresh and rng.random() < 0.6 else rng.choice(
@@ -919,8 +1043,8 @@ def check_history(ctx, cs, members, steps):
       continue
     if op == 'encode':
       entry = last
-      v, cv = entry.held[-1]
-      if not judge_encode or cv != entry.first:
+      v, cv = entry.held[-1] if entry.held else (None, None)
+      if not judge_encode or cv is None or cv != entry.first:
         c['history_encode_not_judged'] += 1
         continue
       try:
@@ -969,6 +1093,50 @@ def check_history(ctx, cs, members, steps):
         known[nums] = Entry(nums, child)
         c['history_children'] += 1
     if not audit(op, src):
+      return False
+  return history_vs_fresh(ctx, cs, known, edited)
+
+
+def history_vs_fresh(ctx, cs, known, edited):
+  """After the history: the DNAs of the history (those whose results the
+  client edited first) decode on the used template to what a FRESH, equal
+  template decodes them to."""
+  c = ctx.counters
+  todo = list(dict.fromkeys([id(e) for e, _ in edited] + [
+      id(e) for e in known.values() if e.first is not None]))[:2]
+  entries = [e for e in known.values() if id(e) in todo]
+  if not entries:
+    return True
+  try:
+    v = TT.build(cs.T, plain_root=cs.plain)
+    t = (pg.template(v, cs.where) if cs.entry == 'pg.template'
+         else pg.hyper.ObjectTemplate(v, where=cs.where))
+  except Exception as e:  # pylint: disable=broad-except
+    if not is_lib_error(e):
+      raise
+    return True                                   # build is judged elsewhere
+  for e in entries:
+    dna = cs.dna(e.m)
+    ok, used = decode(ctx, cs, dna, e.m)
+    if not ok:
+      cs.make()
+      return False
+    try:
+      fresh = t.decode(cs.dna(e.m))
+    except Exception as ex:  # pylint: disable=broad-except
+      if not is_lib_error(ex) and not isinstance(ex, (ValueError, TypeError, KeyError, AttributeError)):
+        raise
+      c['history_fresh_decode_raised'] += 1       # judged by decode() elsewhere
+      continue
+    c['history_fresh_template_checks'] += 1
+    cu, cf = TT.canon_value(used), TT.canon_value(fresh)
+    if cu != cf:
+      ctx.violation('decode-twice-differs', 'history:vs-fresh-template',
+                    f'after a history, decode({dna!r}) = '
+                    f'{pg.format(used, compact=True)[:500]} on the used template, '
+                    f'{pg.format(fresh, compact=True)[:500]} on a fresh equal template '
+                    f'(below: {cs.region(cu, cf)})', cs.record)
+      cs.make()
       return False
   return True
 
